@@ -43,8 +43,8 @@ LABELS = ('L0vv', 'Lss', 'Lsv', 'L1vv')
 
 
 def sizes_for(calc, quick):
-    if calc.crys.dim == 2: return (9, 13, 17) if quick else (13, 17, 21)
-    return (5, 7, 9) if (quick or calc.N > 1) else (7, 9, 11)
+    if calc.crys.dim == 2: return (9, 13, 17, 21) if quick else (13, 17, 21, 25)
+    return (5, 7, 9, 11) if (quick or calc.N > 1) else (7, 9, 11, 13)
 
 
 def exact_rand_data(rng, calc, q=Fraction(3, 2)):
